@@ -77,7 +77,9 @@ RULE = ('every case runs in its own process forked from a pristine interpreter (
         'workspace re-use (one propagate_fft scratch over wavelengths/oversampling, one dft2 out= over shifts/alphas; the '
         'fresh-process call gets a workspace with other previous contents), no-op parameter values (rescale(1), resample to '
         'the own pixelscale, rebin/rescale/pad/window by 1 or 0, neutral spectrum arithmetic) with an edit probe on every '
-        'plane documented as new; '
+        'plane documented as new, ndarray subclasses as inputs (MaskedArray, matrix, metadata subclass, memmap: caller memory '
+        'untouched and result equal to that for the plain ndarray), Tilt/DispersiveTilt planes (incl. numerically solved '
+        'order-2 models) kept in variables and re-used over wavelengths, reads of multi-field wavefronts; '
         'non-trivial = the history contains an in-place call or a repeated dft2 shape or a frozen argument')
 
 TOL = 1e-9
@@ -165,6 +167,74 @@ def make_array(kind, n, seed):
     raise ValueError(kind)
 
 
+# ------------------------------------------------------------------ ndarray subclasses as legal array_like inputs
+class MetaArray(np.ndarray):
+    """an ndarray subclass that carries metadata along (exposure time, units, ...)"""
+    def __new__(cls, a, info='meta'):
+        o = np.asarray(a).view(cls)
+        o.info = info
+        return o
+
+    def __array_finalize__(self, obj):
+        self.info = getattr(obj, 'info', None)
+
+
+_MM_FILES = []
+
+
+def wrap_sub(a, sub):
+    """present the (already frozen or writable) plain array a as an instance of an ndarray subclass on the SAME memory"""
+    if not sub:
+        return a
+    if sub == 'masked':
+        return np.ma.MaskedArray(a, copy=False)
+    if sub == 'matrix':
+        return np.matrix(a, copy=False)
+    if sub == 'meta':
+        return MetaArray(a)
+    if sub == 'memmap':
+        import tempfile
+        fd, path = tempfile.mkstemp(prefix='lv-c10-mm-', dir='/var/tmp')
+        os.close(fd)
+        _MM_FILES.append(path)
+        m = np.memmap(path, dtype=a.dtype, mode='w+', shape=a.shape)
+        m[...] = a
+        m.flush()
+        if not a.flags.writeable:
+            del m
+            m = np.memmap(path, dtype=a.dtype, mode='r', shape=a.shape)
+        return m
+    raise ValueError(sub)
+
+
+def sub_of(a):
+    if isinstance(a, np.ma.MaskedArray):
+        return 'masked'
+    if isinstance(a, np.memmap):
+        return 'memmap'
+    if isinstance(a, np.matrix):
+        return 'matrix'
+    if isinstance(a, MetaArray):
+        return 'meta'
+    return None
+
+
+def plain(a):
+    """the plain ndarray on the memory of a (MaskedArray: its data)"""
+    return np.asarray(a.data if isinstance(a, np.ma.MaskedArray) else a)
+
+
+def cleanup_mm():
+    while _MM_FILES:
+        try:
+            os.remove(_MM_FILES.pop())
+        except OSError:
+            pass
+
+
+SUBS = ['masked', 'matrix', 'meta', 'memmap']
+SUB_KINDS = ('img', 'amp', 'opd', 'cplx')
+
 # ------------------------------------------------------------------ history generation
 REFILL = ('amp', 'opd', 'mask', 'bmask', 'img', 'cplx', 'rho', 'theta')
 
@@ -195,8 +265,10 @@ class Gen:
         if frozen is None:
             frozen = (not writable) and rng.random() < 0.6
         self.seed += 1
-        return self.emit({'f': 'arr', 'kind': kind, 'n': n, 'seed': self.seed + rng.randint(0, 50), 'frozen': bool(frozen)},
-                         {'t': 'A', 'kind': kind, 'n': n, 'frozen': bool(frozen)})
+        st = {'f': 'arr', 'kind': kind, 'n': n, 'seed': self.seed + rng.randint(0, 50), 'frozen': bool(frozen)}
+        if kind in SUB_KINDS and rng.random() < 0.2:
+            st['sub'] = rng.choice(SUBS)
+        return self.emit(st, {'t': 'A', 'kind': kind, 'n': n, 'frozen': bool(frozen)})
 
     def plane(self, cls=None, need_fit=False):
         rng = self.rng
@@ -266,12 +338,30 @@ class Gen:
             st['tilt'] = [rng.choice([1, -2, 3]), rng.choice([0, 2, -1])]
         return self.emit(st, {'t': 'W', 'ptype': 'none', 'tilt': bool(tilt)})
 
-    def mul_tilt(self, w):
+    def tilt_plane(self, kinds=('Tilt', 'Disp', 'Disp2d', 'Disp2d', 'Disp2t')):
+        """a Tilt / DispersiveTilt plane kept in a caller variable and re-used (order-2 models are solved numerically)"""
+        rng = self.rng
+        cands = self.find(lambda t: t['t'] == 'TP' and t['kind'] in kinds)
+        if cands and rng.random() < 0.7:
+            return rng.choice(cands)
+        kind = rng.choice(list(kinds))
+        return self.emit({'f': 'tilt_plane', 'kind': kind, 'x': rng.choice([1, 2, -3, 4]), 'y': rng.choice([0, 1, -2])},
+                         {'t': 'TP', 'kind': kind})
+
+    def mul_tilt(self, w, tp=None):
         rng = self.rng
         wt = self.regs[w]
         st = {'f': 'mul_tilt', 'w': w, 'kind': 'Disp' if rng.random() < 0.25 else 'Tilt',
               'x': rng.choice([1, 2, -3, 4]), 'y': rng.choice([0, 1, -2])}
+        if tp is None and rng.random() < 0.6:
+            tp = self.tilt_plane(('Tilt', 'Tilt', 'Disp', 'Disp2d', 'Disp2t'))
+        if tp is not None:
+            st['tp'] = tp
         return self.emit(st, {'t': 'W', 'ptype': wt['ptype'], 'tilt': True})
+
+    def tilt_shift(self, tp=None):
+        tp = self.tilt_plane(('Tilt', 'Disp', 'Disp2d', 'Disp2d', 'Disp2t', 'Disp2t')) if tp is None else tp
+        return self.emit({'f': 'fn', 'name': 'tilt_shift', 'args': [tp], 'wl': self.rng.randint(0, 1)}, {'t': 'N'})
 
     def poke_attr(self, p, attr=None):
         """the caller writes through plane.amplitude / plane.opd / plane.mask in place"""
@@ -356,6 +446,8 @@ class Gen:
                 self.resample(rng.choice(cands))
         elif x < 0.6:
             self.new_wave(tilt=True)
+        elif x < 0.68:
+            self.tilt_shift()
         else:
             self.memo_fn()
 
@@ -606,6 +698,10 @@ def generate_cases(rng, tier):
         yield gen_memo(rng, ['zbasis', 'zfit', 'resample', 'sample', 'shapes'][k % 5])
     for k in range(12 if tier == 'quick' else 80):
         yield gen_workspace(rng)
+    for k in range(12 if tier == 'quick' else 60):
+        yield gen_subclass(rng, SUBS[k % 4])
+    for k in range(8 if tier == 'quick' else 40):
+        yield gen_wave_reads(rng)
 
 
 def gen_poison(rng):
@@ -708,16 +804,23 @@ def gen_tilt_reuse(rng):
         g.emit({'f': 'fit_tilt', 'p': p, 'inplace': True}, {'t': 'alias', 'of': p})
         g.regs[p]['tilt'] = True
         g.regs[p]['opd'] = -1
+    tps = [g.tilt_plane(('Tilt', 'Disp')) for _ in range(rng.randint(1, 2))]
+    d2 = g.tilt_plane(('Disp2d', 'Disp2t'))
+    tps.append(d2)
+    for wl in rng.choice([[1, 0, 1, 0], [0, 1, 0], [1, 1, 0]]):     # wavelength sweep on ONE numerically solved plane
+        g.emit({'f': 'fn', 'name': 'tilt_shift', 'args': [d2], 'wl': wl}, {'t': 'N'})
     ws = [w]
     if rng.random() < 0.3:
-        ws.append(g.mul_tilt(w))
+        ws.append(g.mul_tilt(w, rng.choice(tps)))
     wp = g.emit({'f': 'mul', 'p': p, 'w': rng.choice(ws)}, {'t': 'W', 'ptype': 'pupil', 'tilt': g.regs[p]['tilt'] or g.regs[w]['tilt']})
     ws.append(wp)
     for _ in range(rng.randint(3, 7)):
         x = rng.random()
         src = wp if rng.random() < 0.7 else rng.choice(ws)
         if x < 0.55:
-            ws.append(g.mul_tilt(src))
+            ws.append(g.mul_tilt(src, rng.choice(tps + [None])))
+        elif x < 0.62:
+            g.tilt_shift(rng.choice(tps + [d2]))
         elif x < 0.85:
             cand = [v for v in ws if g.regs[v]['ptype'] == 'pupil']
             v = rng.choice(cand)
@@ -849,6 +952,80 @@ def gen_workspace(rng):
     return {'op': 'hist', 'n': n, 'steps': g.steps, 'fresh': 'all', 'directed': 'workspace'}
 
 
+def gen_subclass(rng, sub):
+    """directed: frames / pupil arrays handed over as ndarray subclasses (MaskedArray, matrix, metadata subclass, memmap):
+    caller memory untouched, results equal to those for the plain ndarray, repeatable"""
+    g = Gen(rng, rng.choice([6, 8]))
+    res = {'t': 'A', 'kind': 'res', 'n': 0, 'frozen': False}
+
+    def sub_arr(kind, frozen):
+        g.seed += 1
+        return g.emit({'f': 'arr', 'kind': kind, 'n': g.n, 'seed': g.seed + rng.randint(0, 40), 'frozen': frozen, 'sub': sub},
+                      {'t': 'A', 'kind': kind, 'n': g.n, 'frozen': frozen})
+
+    img = sub_arr('img', rng.random() < 0.4)
+    names = ['adc', 'adc', 'pixel', 'jitter', 'smear', 'read_noise', 'shot_noise', 'pad', 'rebin', 'util_rescale',
+             'normalize_power', 'charge_diffusion', 'pixelate']
+    for nm in rng.sample(names, rng.randint(4, 7)):
+        st = {'f': 'fn', 'name': nm, 'args': [img]}
+        if nm == 'adc':
+            st.update(gain='scalar', sat=rng.choice([150, 300, 100]), dtype=rng.choice([None, 'uint16']))
+        elif nm in ('read_noise', 'shot_noise'):
+            st.update(seed=rng.randint(0, 3), method='poisson')
+        elif nm in ('pad', 'rebin', 'util_rescale'):
+            st['k'] = 2
+        g.emit(st, res)
+    f = sub_arr('cplx', rng.random() < 0.4)
+    for _ in range(2):
+        g.emit({'f': 'dft2', 'a': rng.choice([f, img]), 'alpha': '1/%d' % (2 * g.n), 'shape': g.n, 'shift': [rng.choice([0, 1]), 0],
+                'offset': [0, rng.choice([0, 2])], 'unitary': True, 'out': None, 'inverse': rng.random() < 0.3}, res)
+    amp = sub_arr('amp', rng.random() < 0.5)
+    opd = sub_arr('opd', False)
+    p = g.emit({'f': 'plane', 'cls': 'Pupil', 'amp': amp, 'opd': opd, 'mask': None, 'nseg': 1},
+               {'t': 'P', 'cls': 'Pupil', 'nseg': 1, 'opd': opd, 'amp': amp, 'mfloat': True, 'tilt': False, 'arrmask': True})
+    w0 = g.emit({'f': 'wave', 'wl': 0}, {'t': 'W', 'ptype': 'none', 'tilt': False})
+    w1 = g.emit({'f': 'mul', 'p': p, 'w': w0}, {'t': 'W', 'ptype': 'pupil', 'tilt': False})
+    g.emit({'f': 'fit_tilt', 'p': p, 'inplace': rng.random() < 0.5}, {'t': 'N'})
+    g.emit({'f': 'prop_dft', 'w': w1, 'shape': g.n // 2, 'os': 2}, {'t': 'W', 'ptype': 'image', 'tilt': False})
+    return {'op': 'hist', 'n': g.n, 'steps': g.steps, 'fresh': 'all', 'directed': 'subclass-' + sub}
+
+
+def gen_wave_reads(rng):
+    """directed: a wavefront holding several overlapping fields (propagated multi-segment pupil, with per-segment tilt) is
+    READ - intensity, field, insert into an accumulator - and then used again: reads must leave it as it was"""
+    g = Gen(rng, rng.choice([6, 8]))
+    n = g.n
+    amp = g.arr('amp', fresh=True)
+    opd = g.arr('opd', frozen=False, fresh=True)
+    mask = g.arr('mask3', fresh=True)
+    p = g.emit({'f': 'plane', 'cls': 'Pupil', 'amp': amp, 'opd': opd, 'mask': mask, 'nseg': 2},
+               {'t': 'P', 'cls': 'Pupil', 'nseg': 2, 'opd': opd, 'amp': amp, 'mfloat': True, 'tilt': False, 'arrmask': True})
+    if rng.random() < 0.7:
+        g.emit({'f': 'fit_tilt', 'p': p, 'inplace': True}, {'t': 'alias', 'of': p})
+        g.regs[p]['tilt'] = True
+        g.regs[p]['opd'] = -1
+    w0 = g.emit({'f': 'wave', 'wl': rng.randint(0, 1)}, {'t': 'W', 'ptype': 'none', 'tilt': False})
+    wp = g.emit({'f': 'mul', 'p': p, 'w': w0}, {'t': 'W', 'ptype': 'pupil', 'tilt': g.regs[p]['tilt']})
+    osamp = rng.choice([1, 2])
+    wi = g.emit({'f': 'prop_dft', 'w': wp, 'shape': n // osamp, 'os': osamp}, {'t': 'W', 'ptype': 'image', 'tilt': False})
+    acc = g.arr('buf_f', n=n, writable=True, fresh=True)
+    for _ in range(rng.randint(3, 6)):
+        x = rng.random()
+        w = rng.choice([wi, wi, wp])
+        if x < 0.35:
+            g.emit({'f': 'wfield', 'w': w, 'intensity': True}, {'t': 'A', 'kind': 'res', 'n': 0, 'frozen': False})
+        elif x < 0.5:
+            g.emit({'f': 'wfield', 'w': w, 'intensity': False}, {'t': 'A', 'kind': 'res', 'n': 0, 'frozen': False})
+        elif x < 0.8:
+            g.emit({'f': 'insert', 'w': w, 'out': acc, 'weight': rng.choice([1, 0.5])}, {'t': 'alias', 'of': acc})
+        else:
+            g.emit({'f': 'prop_dft', 'w': wp, 'shape': n // osamp, 'os': osamp}, {'t': 'W', 'ptype': 'image', 'tilt': False})
+    ip = g.emit({'f': 'plane', 'cls': 'Image', 'amp': None, 'opd': None, 'mask': None, 'nseg': 1},
+                {'t': 'P', 'cls': 'Image', 'nseg': 1, 'opd': None, 'amp': None, 'mfloat': True, 'tilt': False, 'arrmask': False})
+    g.emit({'f': 'mul', 'p': ip, 'w': wi}, {'t': 'W', 'ptype': 'image', 'tilt': False})
+    return {'op': 'hist', 'n': n, 'steps': g.steps, 'fresh': 'all', 'directed': 'wave-reads'}
+
+
 def gen_confluence(rng):
     return {'op': 'confl', 'n': rng.choice([6, 8]), 'seed': rng.randint(0, 40), 'seg': rng.random() < 0.4,
             'ta': [rng.choice([0, 1, -2, 3]), rng.choice([0, 2, -1])], 'tb': [rng.choice([1, -1, 2]), rng.choice([0, 1, -3])],
@@ -885,7 +1062,7 @@ FN_CODES = {'adc': 101, 'collect_charge': 102, 'collect_charge_bayer': 103, 'pix
             'charge_diffusion': 106, 'jitter': 107, 'smear': 108, 'util_rescale': 109, 'rebin': 110, 'shot_noise': 111,
             'read_noise': 112, 'dark_current': 113, 'power_spectrum': 114, 'sample': 115, 'normalize_power': 116,
             'zernike_basis': 117, 'zernike_fit': 118, 'zernike_remove': 119, 'zernike_compose': 120, 'zernike_coordinates': 121,
-            'mesh': 122, 'rectangle': 123, 'circle': 124, 'hexagon': 125, 'pad': 126, 'window': 127,
+            'tilt_shift': 128, 'mesh': 122, 'rectangle': 123, 'circle': 124, 'hexagon': 125, 'pad': 126, 'window': 127,
             'smear_random': 201, 'cosmic_rays': 202}
 
 
@@ -926,6 +1103,8 @@ def encode(c):
             out += [24, s['p'], s['attr']]
         elif f == 'mul_tilt':
             out += [25, s['w'], 1, 2]
+        elif f == 'tilt_plane':
+            out += [3, 0, 0, 0, 0, 1]        # Plane.__init__ with scalar amplitude, opd and mask
         elif f == 'resample':
             out += [8, s['p']]
         elif f == 'mul':
@@ -1010,7 +1189,9 @@ def mk_tilt(d):
 def describe(x):
     lentil = L()
     if isinstance(x, np.ndarray):
-        return ('A', np.array(x, copy=True), bool(x.flags.writeable))
+        return ('A', np.array(plain(x), copy=True), bool(plain(x).flags.writeable), sub_of(x))
+    if isinstance(x, (lentil.Tilt, lentil.DispersiveTilt)):
+        return ('TP', tilt_xy(x))
     if isinstance(x, lentil.Plane):
         d = {'cls': type(x).__name__, 'amp': np.array(x.amplitude, copy=True), 'opd': np.array(x.opd, copy=True),
              'mask': np.array(x.mask, copy=True), 'ps': x.pixelscale, 'diameter': x._diameter,
@@ -1037,7 +1218,9 @@ def rebuild(d):
     if k == 'A':
         a = np.array(d[1], copy=True)
         a.setflags(write=d[2])
-        return a
+        return wrap_sub(a, d[3] if len(d) > 3 else None)
+    if k == 'TP':
+        return mk_tilt(d[1])
     if k == 'P':
         p = d[1]
         cls = getattr(lentil, p['cls'])
@@ -1127,6 +1310,17 @@ def call_step(s, args, n):
         else:
             a[...] = a * 0.5 + (1e-9 if s['attr'] == 1 else 0.25) * (1 + s['seed'] % 3)
         return None, [a]
+    if f == 'tilt_plane':
+        k = s['kind']
+        if k == 'Tilt':
+            return lentil.Tilt(x=s['x'] * 1e-6, y=s['y'] * 1e-6), []
+        if k == 'Disp':
+            return lentil.DispersiveTilt(trace=[0.5, 0.0], dispersion=[2.5e-3 * s['x'], WLS[1]]), []
+        if k == 'Disp2d':      # 2nd order dispersion: solved numerically; the reference wavelength is one of WLS
+            return lentil.DispersiveTilt(trace=[0.5, 0.0], dispersion=[12.5, 2.5e-3, WLS[1]]), []
+        return lentil.DispersiveTilt(trace=[30.0, 0.5, 0.0], dispersion=[2.5e-3, WLS[1]]), []
+    if f == 'mul_tilt' and 'tp' in args:
+        return args['w'] * args['tp'], []
     if f == 'mul_tilt':
         if s['kind'] == 'Disp':
             tp = lentil.DispersiveTilt(trace=[0.5, 0.0], dispersion=[0.05 * s['x'], 6e-7])
@@ -1227,6 +1421,8 @@ def call_step(s, args, n):
             return lentil.power_spectrum(a[0], pixelscale=DX, rms=1e-8, half_power_freq=5, exp=3, seed=s['seed']), []
         if nm == 'sample':
             return a[0].sample(a[1], waveunit=s['unit']), []
+        if nm == 'tilt_shift':
+            return a[0].shift(wavelength=WLS[s['wl']], xs=0., ys=0., z=FOCAL), []
         if nm == 'zernike_basis':
             return lentil.zernike_basis(a[0], s['modes']), []
         if nm == 'zernike_fit':
@@ -1273,7 +1469,7 @@ def call_step(s, args, n):
     raise ValueError(f)
 
 
-ARGKEYS = {'poke_attr': ['p'], 'mul_tilt': ['w'], 'resample': ['p'], 'poke': ['r'], 'plane': ['amp', 'opd', 'mask'], 'set_opd': ['p', 'a'], 'set_amp': ['p', 'a'], 'fit_tilt': ['p'],
+ARGKEYS = {'tilt_plane': [], 'poke_attr': ['p'], 'mul_tilt': ['w', 'tp'], 'resample': ['p'], 'poke': ['r'], 'plane': ['amp', 'opd', 'mask'], 'set_opd': ['p', 'a'], 'set_amp': ['p', 'a'], 'fit_tilt': ['p'],
            'copy': ['p'], 'rescale': ['p'], 'wave': [], 'mul': ['p', 'w'], 'prop_dft': ['w'], 'prop_fft': ['w', 'scratch'],
            'insert': ['w', 'out'], 'wfield': ['w'], 'dft2': ['a', 'out'], 'spec': ['wave', 'value'], 'spec_scalar': ['s'],
            'spec_bin': ['s1', 's2'], 'spec_to': ['s'], 'spec_trim': ['s'], 'spec_resample': ['s', 'wave']}
@@ -1304,10 +1500,13 @@ def run_call(s, argdesc, n, global_seed=None, scramble=False):
         w = args[ws]
         w[...] = (pat(w.shape, 3) + 0.25) * (1 + 2j if w.dtype.kind == 'c' else 1)
     try:
-        res, targets = call_step(s, args, n)
-    except Exception as e:
-        return ('err', type(e).__name__, 'read-only' in str(e))
-    return ('ok', describe(res), [describe(t) for t in targets])
+        try:
+            res, targets = call_step(s, args, n)
+        except Exception as e:
+            return ('err', type(e).__name__, 'read-only' in str(e))
+        return ('ok', describe(res), [describe(t) for t in targets])
+    finally:
+        cleanup_mm()
 
 
 # ------------------------------------------------------------------ fresh-process server (fork per request from a pristine interpreter)
@@ -1574,6 +1773,7 @@ def new_interpreter_call(s, argdesc, n, gseed):
 
 # ------------------------------------------------------------------ tracking of buffers and objects
 def snap(a):
+    a = plain(a)
     return (a.tobytes(), a.dtype.str, a.shape, bool(a.flags.writeable))
 
 
@@ -1619,14 +1819,21 @@ class Tracker:
         covered by the buffer snapshots)"""
         lentil = L()
         if isinstance(o, lentil.Plane):
+            scalars = tuple((k, repr(v)) for k, v in sorted(vars(o).items())
+                            if isinstance(v, (int, float, complex, str, bool, type(None), tuple, np.generic)))
+            small = tuple((k, v.tobytes()) for k, v in sorted(vars(o).items())
+                          if isinstance(v, np.ndarray) and k in ('trace', 'dispersion'))
             return ('P', type(o).__name__, tuple(view_id(a) for a in self.slots(o)), tuple(tilt_xy(t) for t in o.tilt),
                     repr(o.pixelscale), str(o.ptype), repr(getattr(o, 'focal_length', None)), repr(o._diameter), repr(o._slice),
-                    tuple(sorted(vars(o))))
+                    tuple(sorted(vars(o))), scalars, small)
         if isinstance(o, lentil.Wavefront):
             return ('W', repr(o.wavelength), repr(None if o.pixelscale is None else tuple(o.pixelscale)), repr(o.focal_length),
                     repr(tuple(o.shape)), str(o.ptype), repr(o.diameter),
                     tuple((view_id(f.data), repr(None if f.offset is None else list(f.offset)), repr(f.pixelscale),
-                           tuple(tilt_xy(t) for t in f.tilt)) for f in o.data), tuple(sorted(vars(o))))
+                           tuple(tilt_xy(t) for t in f.tilt),
+                           tuple(tuple((k, repr(v)) for k, v in sorted(vars(t).items())
+                                       if isinstance(v, (int, float, str, bool, type(None), np.generic))) for t in f.tilt))
+                          for f in o.data), tuple(sorted(vars(o))))
         if isinstance(o, lentil.radiometry.Spectrum):
             return ('S', view_id(o.wave), view_id(o.value), o.waveunit, o.valueunit, tuple(sorted(vars(o))))
         return None
@@ -1701,6 +1908,7 @@ def run_hist(c):
             a = make_array(s['kind'], s['n'], s['seed'])
             if s['frozen']:
                 a.setflags(write=False)
+            a = wrap_sub(a, s.get('sub'))
             b, _ = tr.buf_of(a)
             regs.append(a)
             rec.update(st='ok', changed=[], ochanged=[], rng=False, res=('A', None, [b]), upd=[])
@@ -1798,6 +2006,13 @@ def run_hist(c):
                 raise RuntimeError('forked repeat: ' + rep[1])
             if not same_outcome(mine, rep):
                 msgs.append('repeating the call on equal arguments gives a different result')
+            if any(d[0] == 'A' and len(d) > 3 and d[3] for d in argdesc.values()):
+                pd = {k: (d[:3] + (None,) if d[0] == 'A' else d) for k, d in argdesc.items()}
+                rep3 = forked_call(s, pd, n)
+                bump('subclass_vs_plain_checks')
+                if not same_outcome(mine, rep3, targets=False):
+                    msgs.append('the result for an ndarray-subclass argument (MaskedArray / matrix / metadata subclass / memmap) '
+                                'differs from the result for the plain ndarray with the same data')
             if seeded:
                 rep2 = forked_call(s, argdesc, n, 777 + t)
                 if not same_outcome(mine, rep2):
@@ -1840,6 +2055,7 @@ def run_hist(c):
         if t in c.get('newinterp', ()):
             bump('new_interpreter_checks')
         out_steps.append(rec)
+    cleanup_mm()
     return {'steps': out_steps}
 
 
